@@ -137,7 +137,8 @@ PRELUDE = ('TYPE @t\n{\n  "a": 1,\n  "b": @u // {optional: true}\n}\n'
            'TYPE @u\n{\n  "c": @t // {optional: true}\n}\n'
            'ENUM @e\n[\n  "a", // first\n  "b"\n]\n'
            'TAG @api // Api\n  Description\n    tag text\n'
-           'MACRO @m\n(\n  404 any\n)\n')
+           'MACRO @m\n(\n  404 any\n)\n'
+           'TYPE @prx regex\n  /[a-z]+/\nTYPE @pany any\n')
 BLOCKS = [
     'URL /api/{lang}\n  Path\n  {\n    "lang": "en"\n  }\n  GET\n    200 any\n',
     'URL /api/{lang}/rpc\n  Protocol json-rpc-2.0\n  Method listIt // m\n    Params\n    {\n      "p": 1\n    }\n    Result\n    [@t]\n',
@@ -166,6 +167,11 @@ BLOCKS = [
     'GET /api/{lang}/items/{id}/sub/{k}\n  Path\n  {\n    "k": 3\n  }\n  200 any\n',
     'URL /api/{lang}/items/{id}/rpc4\n  Protocol json-rpc-2.0\n  Method m4\n    Params\n      [1]\n    Result\n      {}\n',
     'TAG @sub\n  TAG @subsub\nGET /t\n  Tags @sub @subsub @api\n  200 any\n',
+    'GET /rxp/{id}\n  Path\n  {\n    "id": @prx\n  }\n  200 any\n',
+    'URL /rxq/{id}\n  Path\n  {\n    "id": "abc" // {type: "@prx"}\n  }\n  GET\n    200 any\n',
+    'GET /rxr/{id}\n  Path\n  {\n    "id": 1 // {or: ["@prx", "integer"]}\n  }\n  200 any\n',
+    'GET /rxs/{id}\n  Path\n  {\n    "id": @pany\n  }\n  200 any\n',
+    'GET /rxt/{id}/{k}\n  Path\n  {\n    "id": @prx | @e,\n    "k": [1]\n  }\n  200 any\n',
     'URL /u\n  Tags @api\n  GET\n    Tags @api\n    200 any\n  POST\n    200 any\n',
 ]
 
